@@ -5,7 +5,7 @@
    the real sink (coq/extract/Ex_rotate.v extracts these very definitions).
    Quantification: every op list [ops] (Write of any payload / Advance of the wall clock, never
    backwards / Restart / PutForeign), every configuration [c] (any L, any N, all 8 option sets, three
-   timestamp granularities, any base name and suffix), any start time.  Hypothesis [clean c ops]:
+   timestamp granularities, any base name and suffix, any time zone offset within +-24 h), any start time.  Hypothesis [clean c ops]:
    nobody else creates files that follow the sink's own rotated-name scheme (PutForeign names are
    rejected by the sink's recogniser).  The model's wall clock saturates at 9999-12-31. *)
 From Coq Require Import List ZArith Sorted.
@@ -20,7 +20,7 @@ Print Assumptions C09_source_shape.
 
 (* daily, N <> 1: the records of the active file share one calendar day; the records of every rotated file (present or removed) share one day and the date in its name is the civil date of that day *)
 Theorem C09_days_apart_and_name_carries_day : forall c t0 ops, clean c ops -> let w := run src_shape c t0 ops in daily c = true -> cN c <> 1 ->
-  Forall (fun r => rday r = day_of (act_mt w)) (act w) /\
+  Forall (fun r => rday r = day_of c (act_mt w)) (act w) /\
   Forall (fun f => Forall (fun r => rday r = fday f) (fcont f) /\ fymd f = civil (fday f)) (gone w ++ rot w).
 Proof. exact (fun c t0 ops H => T_days_apart src_shape C09_source_shape c t0 ops H). Qed.
 Print Assumptions C09_days_apart_and_name_carries_day.
@@ -46,7 +46,7 @@ Proof. exact (fun c t0 ops H => T_never_empty src_shape C09_source_shape c t0 op
 Print Assumptions C09_never_rotates_empty.
 
 (* the date text in the names orders like the day numbers *)
-Theorem C09_civil_dates_monotone : forall a b, 0 <= a -> a < b -> ymd_ltb (civil a) (civil b) = true.
+Theorem C09_civil_dates_monotone : forall a b, -719468 <= a -> a < b -> ymd_ltb (civil a) (civil b) = true.
 Proof. exact (civil_mono). Qed.
 Print Assumptions C09_civil_dates_monotone.
 
@@ -57,8 +57,16 @@ Print Assumptions C09_oracle_holds.
 
 (* non-vacuity: two records on 2023-11-14, a jump of two days, a restart on a pre-dated active file *)
 Example C09_nonvacuous :
-  let c := {| cL := 0; cN := 0; startup := false; daily := true; compress := false; cgran := G1ms; cbase := [97%N]; csuffix := [] |} in
+  let c := {| cL := 0; cN := 0; startup := false; daily := true; compress := false; cgran := G1ms; cbase := [97%N]; csuffix := []; ctz := 0 |} in
   let w := run src_shape c 1700000000000 [Write [120%N]; Write [121%N]; Advance 172800000; Write [122%N]; Advance 86400000; Restart; Write [119%N]] in
   (map (fun f => (fymd f, fidx f, map rday (fcont f))) (rot w), map rday (act w))
   = ([((2023, 11, 14), 1, [19675; 19675]); ((2023, 11, 16), 1, [19677])], [19678]).
+Proof. vm_compute. reflexivity. Qed.
+
+(* non-vacuity with a time zone: UTC+9; 14:50 and 15:10 UTC are the same UTC day but two LOCAL days *)
+Example C09_nonvacuous_zone :
+  let c := {| cL := 0; cN := 0; startup := false; daily := true; compress := false; cgran := G1s; cbase := [97%N]; csuffix := []; ctz := 540 |} in
+  let w := run src_shape c (19675 * 86400000 + 53400000) [Write [120%N]; Advance 1200000; Write [121%N]] in
+  (map (fun f => (fymd f, fidx f, map rday (fcont f))) (rot w), map rday (act w))
+  = ([((2023, 11, 14), 1, [19675])], [19676]).
 Proof. vm_compute. reflexivity. Qed.
